@@ -62,7 +62,7 @@ def run_tlc(module, cfg=None, workers=4, env=None, timeout=900, simulate=None, d
         cmd += ["-deadlock"]
     cmd += list(extra) + [module + ".tla"]
     e = dict(os.environ)
-    jopts = "-Xmx%s -XX:+UseParallelGC" % heap
+    jopts = "-Xmx%s -Xss512m -XX:+UseParallelGC" % heap
     if depth_first:
         jopts += " -Dtlc2.tool.queue.IStateQueue=StateDeque"
     e["JAVA_TOOL_OPTIONS"] = jopts
